@@ -1,6 +1,6 @@
 (* C14 - for every good shape record and all oracles within their raise-sets, the model of the
-   validators refines the specification on every validator tree and every value, outside the
-   exact regions of the known gaps; convert_value refines its specification everywhere.        *)
+   validators refines the specification on every validator tree and every value of its input
+   domain; convert_value refines its specification everywhere.                                  *)
 From Coq Require Import List ZArith Bool Lia ZifyBool SpecFloat.
 From PV Require Import Base.Exn Model.ValidatorsBase Model.ValidatorsRegex Model.Validators Spec.ValidatorsSpec
                        Proofs.ValidatorsRegexProofs Proofs.ValidatorsPrims Proofs.ValidatorsGood.
@@ -65,12 +65,11 @@ Section Refine.
 
   Local Notation validate := (validate S O).
   Local Notation spec := (spec O).
-  Local Notation gaps := (gaps O).
 
-  (* the claim for one validator: on its input domain and outside the known gaps, the call returns what the
-     documented predicate demands, and every rejection is a ValidatorException *)
+  (* the claim for one validator: on its input domain the call returns what the documented predicate demands,
+     and every rejection is a ValidatorException *)
   Definition meets (w : validator) : Prop :=
-    forall v, gaps w v = [] -> spec w v <> SOut -> validate w v = outcome_of (spec w v).
+    forall v, spec w v <> SOut -> validate w v = outcome_of (spec w v).
 
   (* ----- Min / Max ----- *)
   Lemma in_dom_numbers : forall d v, dom_numbers_ok d = true -> is_number v = true -> in_dom d v = true.
@@ -94,59 +93,46 @@ Section Refine.
     reflexivity.
   Qed.
 
-  (* Min, all numbers except NaN: accepted (unchanged) exactly when value >= bound, resp. > *)
-  Lemma min_exact : forall b incl v, is_number v = true -> is_number b = true -> is_nan v = false -> is_nan b = false ->
+  (* Min, ALL numbers (ints, bools, every float incl. +-inf and NaN): accepted (unchanged) exactly when
+     value >= bound, resp. > *)
+  Lemma min_exact : forall b incl v, is_number v = true -> is_number b = true ->
     validate (WMin b incl) v = if sat_min b incl v then Ok v else Raise VEC.
   Proof.
-    intros b incl v Nv Nb Av Ab.
+    intros b incl v Nv Nb.
     destruct (number_view v Nv) as [x Vx]. destruct (number_view b Nb) as [y Vy].
-    destruct (view_real v x Vx Av) as [rx Rx]. destruct (view_real b y Vy Ab) as [ry Ry].
-    rewrite (min_sem b incl v x y Vx Vy), (sat_min_cmp v b x y rx ry incl Vx Vy Rx Ry).
+    rewrite (min_sem b incl v x y Vx Vy), (sat_min_cmp v b x y incl Vx Vy).
     now destruct (min_ref incl (xcmp x y)).
   Qed.
 
-  Lemma max_exact : forall b incl v, is_number v = true -> is_number b = true -> is_nan v = false -> is_nan b = false ->
+  Lemma max_exact : forall b incl v, is_number v = true -> is_number b = true ->
     validate (WMax b incl) v = if sat_max b incl v then Ok v else Raise VEC.
   Proof.
-    intros b incl v Nv Nb Av Ab.
+    intros b incl v Nv Nb.
     destruct (number_view v Nv) as [x Vx]. destruct (number_view b Nb) as [y Vy].
-    destruct (view_real v x Vx Av) as [rx Rx]. destruct (view_real b y Vy Ab) as [ry Ry].
-    rewrite (max_sem b incl v x y Vx Vy), (sat_max_cmp v b x y rx ry incl Vx Vy Rx Ry).
+    rewrite (max_sem b incl v x y Vx Vy), (sat_max_cmp v b x y incl Vx Vy).
     now destruct (max_ref incl (xcmp x y)).
   Qed.
 
-  (* NaN (as value or as bound) passes every bound: the defect behind finding C14-K8a *)
-  Lemma min_nan_accepts : forall b incl v, is_number v = true -> is_number b = true -> is_nan v || is_nan b = true ->
-    validate (WMin b incl) v = Ok v.
+  (* NaN (as value or as bound) is rejected by every Min and every Max *)
+  Lemma minmax_nan_rejected : forall b incl v, is_number v = true -> is_number b = true -> is_nan v || is_nan b = true ->
+    validate (WMin b incl) v = Raise VEC /\ validate (WMax b incl) v = Raise VEC.
   Proof.
-    intros b incl v Nv Nb A.
-    destruct (number_view v Nv) as [x Vx]. destruct (number_view b Nb) as [y Vy].
-    rewrite (min_sem b incl v x y Vx Vy).
-    apply orb_true_iff in A as [A|A]; [rewrite (xcmp_nan_l v x y Vx A) | rewrite (xcmp_nan_r b x y Vy A)]; reflexivity.
-  Qed.
-  Lemma max_nan_accepts : forall b incl v, is_number v = true -> is_number b = true -> is_nan v || is_nan b = true ->
-    validate (WMax b incl) v = Ok v.
-  Proof.
-    intros b incl v Nv Nb A.
-    destruct (number_view v Nv) as [x Vx]. destruct (number_view b Nb) as [y Vy].
-    rewrite (max_sem b incl v x y Vx Vy).
-    apply orb_true_iff in A as [A|A]; [rewrite (xcmp_nan_l v x y Vx A) | rewrite (xcmp_nan_r b x y Vy A)]; reflexivity.
+    intros b incl v Nv Nb A. rewrite (min_exact b incl v Nv Nb), (max_exact b incl v Nv Nb).
+    destruct (sat_nan b incl v A) as [-> ->]. split; reflexivity.
   Qed.
 
   Lemma meets_min : forall b incl, meets (WMin b incl).
   Proof.
-    intros b incl v Hg Hs. cbn [ValidatorsSpec.gaps ValidatorsSpec.spec gap_here] in *.
+    intros b incl v Hs. cbn [ValidatorsSpec.spec] in *.
     destruct (is_number v && is_number b) eqn:N; [|congruence]. apply andb_true_iff in N as [Nv Nb].
-    simpl in Hg. destruct (is_nan v || is_nan b) eqn:A; [discriminate|]. apply orb_false_iff in A as [Av Ab].
-    rewrite (min_exact b incl v Nv Nb Av Ab). now destruct (sat_min b incl v).
+    rewrite (min_exact b incl v Nv Nb). now destruct (sat_min b incl v).
   Qed.
 
   Lemma meets_max : forall b incl, meets (WMax b incl).
   Proof.
-    intros b incl v Hg Hs. cbn [ValidatorsSpec.gaps ValidatorsSpec.spec gap_here] in *.
+    intros b incl v Hs. cbn [ValidatorsSpec.spec] in *.
     destruct (is_number v && is_number b) eqn:N; [|congruence]. apply andb_true_iff in N as [Nv Nb].
-    simpl in Hg. destruct (is_nan v || is_nan b) eqn:A; [discriminate|]. apply orb_false_iff in A as [Av Ab].
-    rewrite (max_exact b incl v Nv Nb Av Ab). now destruct (sat_max b incl v).
+    rewrite (max_exact b incl v Nv Nb). now destruct (sat_max b incl v).
   Qed.
 
   (* ----- MinLength / MaxLength: every value, every limit ----- *)
@@ -170,9 +156,9 @@ Section Refine.
   Qed.
 
   Lemma meets_minlen : forall n, meets (WMinLen n).
-  Proof. intros n v _ _. rewrite minlen_exact. simpl. destruct (py_len v) as [l|]; [|reflexivity]. now destruct (n <=? l). Qed.
+  Proof. intros n v _. rewrite minlen_exact. simpl. destruct (py_len v) as [l|]; [|reflexivity]. now destruct (n <=? l). Qed.
   Lemma meets_maxlen : forall n, meets (WMaxLen n).
-  Proof. intros n v _ _. rewrite maxlen_exact. simpl. destruct (py_len v) as [l|]; [|reflexivity]. now destruct (l <=? n). Qed.
+  Proof. intros n v _. rewrite maxlen_exact. simpl. destruct (py_len v) as [l|]; [|reflexivity]. now destruct (l <=? n). Qed.
 
   (* ----- NotEmpty ----- *)
   Lemma empty_test_sem : forall op lit l, empty_test op lit = true -> 0 <= l -> z_cmp op l lit = (l =? 0).
@@ -216,7 +202,7 @@ Section Refine.
 
   Lemma meets_notempty : forall strip, meets (WNotEmpty strip).
   Proof.
-    intros strip v _ _. destruct (is_str v) eqn:IS.
+    intros strip v _. destruct (is_str v) eqn:IS.
     - destruct v; try discriminate. rewrite notempty_str. simpl. now destruct (all_ws s).
     - rewrite (notempty_other strip v IS). destruct v; try discriminate; simpl;
         try reflexivity; match goal with |- context [?l =? 0] => now destruct (l =? 0) end.
@@ -232,7 +218,7 @@ Section Refine.
 
   Lemma meets_email : forall pat pp, meets (WEmail pat pp).
   Proof.
-    intros pat pp v _ Hs. destruct v; simpl in Hs; try congruence.
+    intros pat pp v Hs. destruct v; simpl in Hs; try congruence.
     destruct pat as [r|].
     - simpl. rewrite (g_email_mode S G), (g_vexc S G). simpl. now destruct (re_fullmatch r s).
     - rewrite email_default_str. simpl. now destruct (email_predb s).
@@ -241,8 +227,8 @@ Section Refine.
   (* ----- IsUuid ----- *)
   Lemma meets_uuid : forall convert, meets (WIsUuid convert).
   Proof.
-    intros convert v _ Hs. destruct v; simpl in Hs; try congruence.
-    simpl. unfold uuid_validate. simpl py_str. pose proof (ok_uuid O oracles s) as R.
+    intros convert v Hs. destruct v; simpl in Hs; try congruence.
+    simpl. unfold uuid_validate. simpl py_str. cbn [bind]. pose proof (ok_uuid O oracles s) as R.
     destruct (o_uuid O s) as [u|e]; [reflexivity|]. simpl in R.
     now rewrite (handle_rv _ _ _ _ _ (g_uuid S G) R), (g_vexc S G).
   Qed.
@@ -272,31 +258,29 @@ Section Refine.
     - now rewrite (handle_rv _ _ _ _ _ (g_enum S G) within_TE), (g_vexc S G).
   Qed.
 
-  (* int(value) of the model against "the integer the value denotes" of the specification *)
-  Lemma enum_int_arg_denoted : forall ms v,
-    gap_here (WIsEnum ms true true true) v = [] ->
-    match enum_int_arg O ms v with
+  (* int(value) of the model (behind the float guard) against "the integer the value denotes" of the specification *)
+  Lemma enum_int_value_denoted : forall ms v,
+    match enum_int_value S O ms v with
     | Ok z => int_denoted O ms v = Some z
-           \/ (int_denoted O ms v = None /\ member_of ms (VInt z) = None)
     | Raise e => int_denoted O ms v = None /\ (within e [ValueErrorC] = true \/ e = TypeErrorC)
     end.
   Proof.
-    intros ms v Hg.
-    destruct v as [ | b | z | f | s | s | l | l | ks vs | n | kind payload]; cbn [enum_int_arg py_int int_denoted].
+    intros ms v.
+    destruct v as [ | b | z | f | s | s | l | l | ks vs | n | kind payload];
+      cbn [enum_int_value enum_int_arg py_int int_denoted].
     - auto.
     - auto.
     - auto.
-    - (* float *)
-      destruct f as [s| s | | s m e]; cbn [int_of_float float_is_integral]; auto.
-      + discriminate Hg.
-      + cbn [gap_here] in Hg. fold (float_is_integral (S754_finite s m e)) in *.
-        destruct (float_is_integral (S754_finite s m e)) eqn:FI.
-        * left. reflexivity.
-        * right. split; [reflexivity|].
-          cbn [int_of_float] in Hg.
-          destruct (member_of ms (VInt _)); [discriminate | reflexivity].
-    - (* str *) unfold py_int_of_str. destruct (parse_dec (num_strip s)); auto.
-      pose proof (ok_int O oracles s) as R. destruct (o_int_of_str O s); simpl in *; auto.
+    - (* float: whole numbers are truncated exactly, everything else (fractions, inf, nan) is a ValueError *)
+      rewrite (g_enum_guard S G). cbn [andb].
+      destruct (float_is_integral f) eqn:FI; cbn [negb].
+      + destruct f as [s| s | | s m e]; try discriminate; cbn [int_of_float]; reflexivity.
+      + split; [reflexivity | left; reflexivity].
+    - (* str *) unfold py_int_of_str. destruct (int_of_canonical s) as [[z|e]|] eqn:C.
+      + reflexivity.
+      + unfold int_of_canonical in C. destruct (parse_dec (num_strip s)); [|discriminate].
+        destruct (over_limit (num_strip s)); injection C as C; [|discriminate]. subst e. auto.
+      + pose proof (ok_int O oracles s) as R. destruct (o_int_of_str O s); simpl in *; auto.
     - (* bytes *) pose proof (ok_intb O oracles s) as R. destruct (o_int_of_bytes O s); simpl in *; auto.
     - auto.
     - auto.
@@ -308,24 +292,16 @@ Section Refine.
       destruct (nth_error ms (Z.to_nat i)) as [[]|]; destruct (0 <=? i); auto.
   Qed.
 
-  Lemma gap_enum_flags : forall ms c u v, gap_here (WIsEnum ms true c u) v = gap_here (WIsEnum ms true true true) v.
-  Proof. reflexivity. Qed.
-
   Lemma meets_enum : forall ms ie convert upper, meets (WIsEnum ms ie convert upper).
   Proof.
-    intros ms ie convert upper v Hg _. cbn [ValidatorsSpec.gaps] in Hg.
+    intros ms ie convert upper v _.
     cbn [ValidatorsSpec.spec Validators.validate]. unfold enum_validate.
     set (v1 := match v with VStr s => if upper then VStr (py_upper O s) else v | _ => v end).
     destruct ie.
-    - (* IntEnum: int(value) first *)
-      assert (Hg1 : gap_here (WIsEnum ms true true true) v1 = []).
-      { rewrite gap_enum_flags in Hg. destruct v; try exact Hg. subst v1. now destruct upper. }
-      pose proof (enum_int_arg_denoted ms v1 Hg1) as D.
-      destruct (enum_int_arg O ms v1) as [z|e].
-      + destruct D as [D|[D M]]; rewrite D.
-        * rewrite enum_lookup_member. destruct (member_of ms (VInt z)); [reflexivity|].
-          apply enum_handle. left; reflexivity.
-        * rewrite enum_lookup_member, M. apply enum_handle. left; reflexivity.
+    - pose proof (enum_int_value_denoted ms v1) as D.
+      destruct (enum_int_value S O ms v1) as [z|e].
+      + rewrite D, enum_lookup_member. destruct (member_of ms (VInt z)); [reflexivity|].
+        apply enum_handle. left; reflexivity.
       + destruct D as [D W]. rewrite D. now apply enum_handle.
     - rewrite enum_lookup_member. destruct (member_of ms v1); [reflexivity|].
       apply enum_handle. left; reflexivity.
@@ -333,16 +309,16 @@ Section Refine.
 
   (* ----- MatchPattern, DatetimeIsoFormat, DateTimeUnixTimestamp ----- *)
   Lemma match_str : forall pat s, validate (WMatch pat) (VStr s) = if re_search pat s then Ok (VStr s) else Raise VEC.
-  Proof. intros. simpl. unfold match_validate. now rewrite (g_match_mode S G), (g_vexc S G). Qed.
+  Proof. intros. simpl. unfold match_validate. simpl py_str. now rewrite (g_match_mode S G), (g_vexc S G). Qed.
 
   Lemma meets_match : forall pat, meets (WMatch pat).
   Proof.
-    intros pat v _ Hs. destruct v; simpl in Hs; try congruence. rewrite match_str. simpl. now destruct (re_search pat s).
+    intros pat v Hs. destruct v; simpl in Hs; try congruence. rewrite match_str. simpl. now destruct (re_search pat s).
   Qed.
 
   Lemma meets_iso : meets WIso.
   Proof.
-    intros v _ _. simpl. unfold iso_validate. pose proof (ok_iso O oracles v) as R.
+    intros v _. simpl. unfold iso_validate. pose proof (ok_iso O oracles v) as R.
     destruct (o_fromiso O v) as [d|e]; [reflexivity|]. simpl in R.
     now rewrite (handle_rv _ _ _ _ _ (g_iso S G) R), (g_vexc S G).
   Qed.
@@ -355,16 +331,29 @@ Section Refine.
     simpl in R. now rewrite (handle_rv _ _ _ _ _ (g_unix_add S G) R).
   Qed.
 
+  Lemma within_OE : within OverflowErrorC [ValueErrorC; OverflowErrorC] = true. Proof. reflexivity. Qed.
+  Lemma incl_VE_unix : incl [ValueErrorC] [ValueErrorC; OverflowErrorC].
+  Proof. intros x [<-|[]]. left; reflexivity. Qed.
+
+  Lemma float_of_Z_raises : forall z e, float_of_Z z = Raise e -> e = OverflowErrorC.
+  Proof.
+    intros z e. unfold float_of_Z. destruct (z =? 0); [discriminate|]. cbv zeta.
+    destruct (Z.log2 (Z.abs z) + 1 <=? 53); [discriminate|].
+    match goal with |- (if ?c then _ else _) = _ -> _ => destruct c end; [|discriminate].
+    intro H. now injection H as <-.
+  Qed.
+
   Lemma meets_unix : meets WUnix.
   Proof.
-    intros v Hg _. cbn [ValidatorsSpec.gaps gap_here] in Hg. simpl. unfold unix_validate.
+    intros v _. simpl. unfold unix_validate.
     rewrite (g_unix_dom S G), (g_vexc S G).
     destruct v; simpl; try reflexivity.
     - apply epoch_step.
-    - destruct (float_of_Z z) as [f|e]; [apply epoch_step | discriminate].
+    - destruct (float_of_Z z) as [f|e] eqn:F; [apply epoch_step|].
+      apply float_of_Z_raises in F as ->. now rewrite (handle_rv _ _ _ _ _ (g_unix_float S G) within_OE).
     - apply epoch_step.
     - pose proof (ok_float O oracles s) as R. destruct (o_float_of_str O s) as [f|e]; [apply epoch_step|].
-      simpl in R. now rewrite (handle_rv _ _ _ _ _ (g_unix_float S G) R).
+      cbn [raises_within] in R. now rewrite (handle_rv _ _ _ _ _ (g_unix_float S G) (within_more _ _ _ R incl_VE_unix)).
   Qed.
 
   Lemma meets_leaf : forall w, is_leaf w -> meets w.
@@ -376,20 +365,20 @@ Section Refine.
 
   (* ----- Composite: by induction on the children ----- *)
   Lemma composite_children : forall cs v, Forall meets cs ->
-    gaps_all O gaps cs v = [] -> all_accept spec cs v <> SOut ->
+    all_accept spec cs v <> SOut ->
     run_children validate false cs v = match all_accept spec cs v with SAccept _ => Ok v | _ => Raise VEC end.
   Proof.
-    induction cs as [|c cs IH]; intros v F Hg Hs; simpl in *; [reflexivity|].
-    inversion F as [|? ? Mc Fcs]; subst. apply app_eq_nil in Hg as [Gc Gr].
+    induction cs as [|c cs IH]; intros v F Hs; simpl in *; [reflexivity|].
+    inversion F as [|? ? Mc Fcs]; subst.
     assert (Sc : spec c v <> SOut) by (destruct (spec c v); congruence).
-    rewrite (Mc v Gc Sc). destruct (spec c v) as [| |r]; simpl; try reflexivity; try congruence.
+    rewrite (Mc v Sc). destruct (spec c v) as [| |r]; simpl; try reflexivity; try congruence.
     now apply IH.
   Qed.
 
   Lemma meets_composite : forall cs, Forall meets cs -> meets (WComposite cs).
   Proof.
-    intros cs F v Hg Hs. cbn [ValidatorsSpec.gaps ValidatorsSpec.spec Validators.validate] in *.
-    rewrite (g_co_threads S G), (g_co_ret S G), (composite_children cs v F Hg Hs).
+    intros cs F v Hs. cbn [ValidatorsSpec.spec Validators.validate] in *.
+    rewrite (g_co_threads S G), (g_co_ret S G), (composite_children cs v F Hs).
     destruct (all_accept spec cs v) eqn:E; try reflexivity.
     (* all_accept returns the value itself *)
     assert (X : forall l x r, all_accept spec l x = SAccept r -> r = x).
@@ -399,13 +388,13 @@ Section Refine.
 
   (* ----- ForEach: by induction on the children (one item) and on the items ----- *)
   Lemma foreach_pipe : forall cs it, Forall meets cs ->
-    gaps_pipe O gaps cs it = [] -> pipe spec cs it <> SOut ->
+    pipe spec cs it <> SOut ->
     run_children validate true cs it = outcome_of (pipe spec cs it).
   Proof.
-    induction cs as [|c cs IH]; intros it F Hg Hs; simpl in *; [reflexivity|].
-    inversion F as [|? ? Mc Fcs]; subst. apply app_eq_nil in Hg as [Gc Gr].
+    induction cs as [|c cs IH]; intros it F Hs; simpl in *; [reflexivity|].
+    inversion F as [|? ? Mc Fcs]; subst.
     assert (Sc : spec c it <> SOut) by (destruct (spec c it); congruence).
-    rewrite (Mc it Gc Sc). destruct (spec c it) as [| |r]; simpl; try reflexivity; try congruence.
+    rewrite (Mc it Sc). destruct (spec c it) as [| |r]; simpl; try reflexivity; try congruence.
     now apply IH.
   Qed.
 
@@ -418,18 +407,17 @@ Section Refine.
   Qed.
 
   Lemma foreach_items : forall cs items, Forall meets cs ->
-    gaps_items (gaps_pipe O gaps cs) (pipe spec cs) items = [] -> each_accept (pipe spec cs) items <> SOut ->
+    each_accept (pipe spec cs) items <> SOut ->
     match each_item (run_children validate true cs) false items with Ok rs => Ok (VList rs) | Raise e => Raise e end
     = outcome_of (each_accept (pipe spec cs) items).
   Proof.
-    intros cs items F. induction items as [|it items IH]; intros Hg Hs; simpl in *; [reflexivity|].
-    apply app_eq_nil in Hg as [Gi Gr].
+    intros cs items F. induction items as [|it items IH]; intros Hs; simpl in *; [reflexivity|].
     assert (Si : pipe spec cs it <> SOut) by (destruct (pipe spec cs it); congruence).
-    rewrite (foreach_pipe cs it F Gi Si).
+    rewrite (foreach_pipe cs it F Si).
     destruct (pipe spec cs it) as [| |r]; simpl; try reflexivity; try congruence.
     assert (Sr : each_accept (pipe spec cs) items <> SOut).
     { destruct (each_accept (pipe spec cs) items) as [| |[]]; congruence. }
-    specialize (IH Gr Sr).
+    specialize (IH Sr).
     destruct (each_accept (pipe spec cs) items) as [| |r'] eqn:E.
     - congruence.
     - simpl in *. destruct (each_item _ false items); [discriminate | assumption].
@@ -439,7 +427,7 @@ Section Refine.
 
   Lemma meets_foreach : forall cs, Forall meets cs -> meets (WForEach cs).
   Proof.
-    intros cs F v Hg Hs. cbn [ValidatorsSpec.gaps ValidatorsSpec.spec Validators.validate] in *.
+    intros cs F v Hs. cbn [ValidatorsSpec.spec Validators.validate] in *.
     rewrite (g_fe_dom S G), (g_fe_threads S G), (g_fe_ret S G), (g_vexc S G). simpl in_dom.
     destruct (iter_items v) as [items|]; simpl; [|reflexivity].
     now apply foreach_items.
@@ -511,19 +499,35 @@ Section Refine.
   Qed.
 
   (* ---------- convert_value ---------------------------------------------------------------------- *)
-  Lemma normalise_ref : forall v, normalise O (s_cv_norm S) v = py_lower O (py_strip (py_str O v)).
-  Proof. intro v. rewrite (g_norm S G). reflexivity. Qed.
+  Lemma normalise_ref : forall v, normalise O (s_cv_norm S) v =
+    match py_str O v with Ok s => Ok (py_lower O (py_strip s)) | Raise e => Raise e end.
+  Proof. intro v. unfold normalise. rewrite (g_norm S G). reflexivity. Qed.
+
+  (* str(v) raises nothing but ValueError (an int beyond the digit limit) *)
+  Lemma py_str_raises : forall v e, py_str O v = Raise e -> e = ValueErrorC.
+  Proof.
+    intros v e. destruct v; simpl; try discriminate.
+    - destruct b; discriminate.
+    - destruct (str_of_int_cases z) as [-> | ->]; [discriminate|]. intro H. now injection H as <-.
+  Qed.
+
+  Lemma within_VE1 : within ValueErrorC [ValueErrorC] = true. Proof. reflexivity. Qed.
 
   Theorem convert_refines_spec : forall v t, convert_value S O v t = spec_convert O v t.
   Proof.
     intros v t. unfold convert_value, spec_convert. destruct (isinstance_t v t); [reflexivity|].
-    rewrite normalise_ref. set (s := py_lower O (py_strip (py_str O v))).
+    rewrite normalise_ref. destruct (py_str O v) as [s0|e] eqn:PS.
+    2:{ apply py_str_raises in PS as ->. now rewrite (handle_raise _ _ _ _ _ _ (g_convert_norm S G) within_VE1). }
+    set (s := py_lower O (py_strip s0)).
     destruct t; try reflexivity.
     - rewrite (g_true S G), (g_false S G), (g_bool_else S G). unfold str_in. simpl existsb.
       now rewrite !orb_false_r.
-    - unfold py_int_of_str. destruct (parse_dec (num_strip s)); [reflexivity|].
-      pose proof (ok_int O oracles s) as R. destruct (o_int_of_str O s) as [z|e]; [reflexivity|]. simpl in R.
-      now rewrite (handle_raise _ _ _ _ _ _ (g_convert S G) R).
+    - destruct (py_int_of_str O s) as [z|e] eqn:PI; [reflexivity|].
+      assert (W : within e [ValueErrorC] = true).
+      { unfold py_int_of_str, int_of_canonical in PI. destruct (parse_dec (num_strip s)).
+        - destruct (over_limit (num_strip s)); [|discriminate]. now injection PI as <-.
+        - pose proof (ok_int O oracles s) as R. rewrite PI in R. exact R. }
+      now rewrite (handle_raise _ _ _ _ _ _ (g_convert S G) W).
     - pose proof (ok_float O oracles s) as R. destruct (o_float_of_str O s) as [f|e]; [reflexivity|]. simpl in R.
       now rewrite (handle_raise _ _ _ _ _ _ (g_convert S G) R).
   Qed.
@@ -534,7 +538,8 @@ Section Refine.
   Proof.
     intros v t. rewrite convert_refines_spec. unfold spec_convert.
     destruct (isinstance_t v t) eqn:I; [assumption|].
-    set (s := py_lower O (py_strip (py_str O v))).
+    destruct (py_str O v) as [s0|e]; [|reflexivity].
+    set (s := py_lower O (py_strip s0)).
     destruct t; simpl; try reflexivity.
     - destruct (zlist_eqb s S_true || zlist_eqb s [49]); [reflexivity|].
       destruct (zlist_eqb s S_false || zlist_eqb s [48]); reflexivity.
@@ -542,23 +547,24 @@ Section Refine.
     - now destruct (o_float_of_str O s).
   Qed.
 
-  (* convert_value inverts str() on ints, for every int *)
-  Theorem convert_inverts_str_int : forall z, convert_value S O (VStr (py_str O (VInt z))) TInt = Ok (VInt z).
+  (* convert_value inverts str() on ints: whenever str(z) exists (at most 4300 digits), it is read back as z *)
+  Theorem convert_inverts_str_int : forall z s, py_str O (VInt z) = Ok s -> convert_value S O (VStr s) TInt = Ok (VInt z).
   Proof.
-    intro z. rewrite convert_refines_spec. unfold spec_convert. simpl isinstance_t. cbn [py_str].
-    unfold py_lower. rewrite show_Z_strip, show_Z_ascii, show_Z_lower, int_of_show. reflexivity.
+    intros z s H. rewrite convert_refines_spec. unfold spec_convert. simpl isinstance_t. cbn [py_str] in *.
+    destruct (str_of_int_cases z) as [E|E]; rewrite E in H; [|discriminate]. injection H as <-.
+    unfold py_lower. rewrite show_Z_strip, show_Z_ascii, show_Z_lower, (int_of_show O z _ E). reflexivity.
   Qed.
 
   (* ... and on bools *)
-  Theorem convert_inverts_str_bool : forall b, convert_value S O (VStr (py_str O (VBool b))) TBool = Ok (VBool b).
-  Proof. intro b. rewrite convert_refines_spec. destruct b; reflexivity. Qed.
+  Theorem convert_inverts_str_bool : forall b s, py_str O (VBool b) = Ok s -> convert_value S O (VStr s) TBool = Ok (VBool b).
+  Proof. intros b s H. rewrite convert_refines_spec. destruct b; injection H as <-; reflexivity. Qed.
 
   (* the whole bool table: exactly 'true' / '1' and 'false' / '0' after strip().lower() *)
-  Theorem convert_bool_table : forall v, isinstance_t v TBool = false ->
-    let s := py_lower O (py_strip (py_str O v)) in
+  Theorem convert_bool_table : forall v s0, isinstance_t v TBool = false -> py_str O v = Ok s0 ->
+    let s := py_lower O (py_strip s0) in
     convert_value S O v TBool =
       if zlist_eqb s S_true || zlist_eqb s [49] then Ok (VBool true)
       else if zlist_eqb s S_false || zlist_eqb s [48] then Ok (VBool false)
       else Raise ConversionErrorC.
-  Proof. intros v I s. rewrite convert_refines_spec. unfold spec_convert. now rewrite I. Qed.
+  Proof. intros v s0 I PS s. rewrite convert_refines_spec. unfold spec_convert. now rewrite I, PS. Qed.
 End Refine.
